@@ -1,7 +1,6 @@
 package stdlib
 
 import (
-	"math"
 	"strconv"
 
 	. "rare/pkg/expressions" //lint:ignore ST1001 Legacy
@@ -122,8 +121,17 @@ func kfExpBucket(args []KeyBuilderStage) (KeyBuilderStage, error) {
 		if err != nil {
 			return ErrorNum
 		}
-		logVal := int(math.Log10(float64(val)))
+		// largest power of ten <= val, in integer arithmetic (float log10 misplaces
+		// values such as 10^15 and 10^16-1); 0 for val <= 0 as before
+		bucket := 0
+		if val > 0 {
+			bucket = 1
+			for val >= 10 {
+				val /= 10
+				bucket *= 10
+			}
+		}
 
-		return strconv.Itoa(int(math.Pow10(logVal)))
+		return strconv.Itoa(bucket)
 	}), nil
 }
